@@ -4,3 +4,4 @@ import CR.Model.Solver
 import CR.Model.Gen
 import CR.Model.Validate
 import CR.Model.Batch
+import CR.Model.Report
